@@ -328,6 +328,30 @@ def shortSize (p : Prog) (w : Nat) : Bool :=
   (List.range p.nt).any (fun k => p.cons.any (fun c =>
     !isLocal w k c && sizeOf p (c.orr.getD (prodOut p k).dtt) != sizeOf p (recvType c)))
 
+/-- ranks (≠ the producer's) reached by the output group of class `c` for producer instance `k` -/
+def groupRanks (p : Prog) (w k : Nat) (c : Cons) : List Nat :=
+  ((p.cons.filter (fun d => sameGroup c d && !isLocal w k d)).map (fun d => rankOf w (k + d.shift))).eraseDups
+
+/-- the destination sets of the remote output groups of some producer instance differ: with the chain / binomial
+    propagation a relay then does not forward an output it does not consume (finding of C13); such configurations are
+    run with the star propagation (`runtime_comm_coll_bcast = 0`) -/
+def diffSets (p : Prog) (w : Nat) : Bool :=
+  (List.range p.nt).any (fun k => p.cons.any (fun c => p.cons.any (fun d =>
+    !isLocal w k c && !isLocal w k d &&
+    !((groupRanks p w k c).all (fun r => (groupRanks p w k d).contains r) &&
+      (groupRanks p w k d).all (fun r => (groupRanks p w k c).contains r)))))
+
+/-- does the group of `c` need a PACKED reception on `c`'s rank (its members there disagree on the receive type) -/
+def needsPacked (p : Prog) (w k : Nat) (c : Cons) : Bool :=
+  !((groupMembers p w k c).all (fun d => recvTypeAt p d = recvType c))
+
+/-- F2: without short messages, a rank receives two outputs of one flow from one producer instance, one of them PACKED:
+    `parsec_create_reshape_promise` triggers the PACKED promise with a NULL execution stream (crash) -/
+def packedMulti (p : Prog) (w : Nat) : Bool :=
+  (List.range p.nt).any (fun k => p.cons.any (fun c => p.cons.any (fun d =>
+    !isLocal w k c && !isLocal w k d && rankOf w (k + c.shift) = rankOf w (k + d.shift) && !sameGroup c d &&
+    (needsPacked p w k c || needsPacked p w k d))))
+
 def wellFormed (p : Prog) : Bool :=
   decide (1 ≤ p.mb ∧ 1 ≤ p.nb ∧ p.mb ≤ p.ld ∧ 1 ≤ p.nt ∧ p.ld * p.nb ≤ 400) &&
   p.cons.all (fun c => decide (1 ≤ c.fan ∧ c.fan ≤ 8) &&
